@@ -195,6 +195,37 @@ def gen_cases(rng, tier):
                      and (any(it3[0] == 'ov' for it3 in target) or any(it3[0] == 'ov' for it3 in s2)) for s2 in seqs)
         cases.append({'id': 'c12-run-%d' % i, 'cfg': cfg, 'hist': h, 'sub': 'ksim', 'kind': kind, 'mode': mode, 'always': always,
                       'shadow': shadow, 'target_vk': seqs.index(target), 'tags': {'kind': kind + ('-slow' if slow else ''), 'mode': mode, 'always_on': always, 'shadowed': shadow, 'os_repeats': reps}})
+    # structured tables for the backtracking and the release path (judged by correspondence): an overlap group whose keys also start a
+    # longer plain sequence (it can only complete when its keys go up), and a sequence that begins with an inner key of another one
+    # (after a wrong key the tracker keeps only what is still a suffix of what was typed)
+    K3 = POOL
+    si = 0
+    for mode in ('hidden-suppressed', 'hidden-delay-type', 'visible-backspaced'):
+        for _ in range(6 if tier == 'quick' else 120):
+            p, q, r, d, w = rng.sample(K3, 5)
+            T = rng.choice([50, 200])
+            src = ['a'] + POOL
+            base = '(defcfg sequence-timeout %d sequence-input-mode %s)\n(defsrc %s)\n(deflayer l0 %s)\n(defvirtualkeys v0 f1 v1 f2)\n' % (
+                T, mode, ' '.join(src), ' '.join(['sldr'] + src[1:]))
+            lead = ['t3', 'd%d' % K['a'], 't2', 'u%d' % K['a'], 't2']
+            # (O-(p q)) next to (p q r): group typed overlapping, released, then another key
+            cfg = base + '(defseq v0 (O-(%s %s)) v1 (%s %s %s))' % (p, q, p, q, r)
+            a, b = rng.sample([p, q], 2)
+            h = lead + ['d%d' % K[a], 't3', 'd%d' % K[b], 't3', 'u%d' % K[a], 't2', 'u%d' % K[b], 't5']
+            nxt = rng.choice([r, w, 'a'])
+            h += ['d%d' % K[nxt], 't3', 'u%d' % K[nxt], 't%d' % (T + 30), 'q']
+            cases.append({'id': 'c12-struct-%d' % si, 'cfg': cfg, 'hist': h, 'sub': 'ksim', 'kind': 'random', 'mode': mode, 'always': False,
+                          'shadow': True, 'target_vk': 0, 'tags': {'kind': 'group-completes-on-release', 'mode': mode}})
+            si += 1
+            # (p q r) next to (q d): p q, a wrong key, then d
+            cfg = base + '(defseq v0 (%s %s %s) v1 (%s %s))' % (p, q, r, q, d)
+            h = list(lead)
+            for k in (p, q, w, d):
+                h += ['d%d' % K[k], 't3', 'u%d' % K[k], 't3']
+            h += ['t%d' % (T + 30), 'q']
+            cases.append({'id': 'c12-struct-%d' % si, 'cfg': cfg, 'hist': h, 'sub': 'ksim', 'kind': 'random', 'mode': mode, 'always': False,
+                          'shadow': False, 'target_vk': 0, 'tags': {'kind': 'wrong-key-after-prefix', 'mode': mode}})
+            si += 1
     return cases
 
 
